@@ -178,7 +178,7 @@ class TreeEval:
         nz = Obj(__cls__=NS + 'Normalizer')
         ctor = self.fn(NS + 'Normalizer::Normalizer')
         self.it.construct(ctor, nz, [Obj(__kind__='pyfunc', f=ctx)])
-        self.it.call(self.fn(NS + 'Normalizer::Normalize'), [root], nz)
+        self.it.call(self.fn(NS + 'Normalizer::Normalize', nparams=1), [root], nz)       # the public entry (a depth-carrying overload may exist beside it)
         problems = []
         self.check_parents(root, problems)
         return self.desc(root), problems
